@@ -3,6 +3,7 @@ import BqVerif.Proofs.Mailbox
 import BqVerif.Proofs.Worker
 import BqVerif.Model.FineWake
 import BqVerif.Proofs.StartOnceNet
+import BqVerif.Proofs.IntegrityNet
 import BqVerif.Model.RuntimeWitness
 /-!
 # C07 — every awaited runtime future resolves exactly once with its own result
@@ -149,6 +150,57 @@ theorem C07_G_start_once_partial (tbl : Table) (attached : Bool) (nw nc : Nat) (
 /-- non-vacuity: the leak run does start the root task -/
 example : startsOf ⟨-1, 0, 0⟩ ((Net.initFlat leakTable false 1 1).execEvs leakRun) = 1 := by
   decide +kernel
+
+
+/-- **Result integrity (G3, G4 of the keystone) — flat topology, all schedules.**
+    With `H` the log of body events of the run: in the state reached by any run,
+    (1) every RESULT message in any channel carries a value that the task with that return
+    address returned (`ret a _ v ∈ H`); (2) every filled slot `s` of every mailbox `m` of every
+    worker `w` holds a value returned by a task whose return address is `(w, m, s)` (for a
+    single-result mailbox: `(w, m, ·)`); (3) every result stored in a server mailbox `m` was
+    returned by a task addressed to `(-1, m, ·)`.  So results are never mis-routed, mixed up
+    between slots, or invented.
+    (`_partial`: "a value the task returned", not yet "the value" - uniqueness of the `ret`
+    event per address is validated, the analogue `C07_G_start_once_partial` is proved; the
+    client leg `sResult` is covered by the correspondence only.) -/
+theorem C07_G_integrity_partial (tbl : Table) (attached : Bool) (nw nc : Nat) (trs : List Tr)
+    (hwf : ∀ t ∈ trs, t.wf) :
+    let n := (Net.initFlat tbl attached nw nc).exec trs
+    let H := (Net.initFlat tbl attached nw nc).execEvs trs
+    (∀ c ∈ n.chans, ∀ a v b, Msg.result a v b ∈ c.2 → RetIn H a v)
+    ∧ (∀ w ∈ n.workers, ∀ m b, (m, b) ∈ w.boxes → ∀ s v, b.slots[s]? = some (some v) →
+        ∃ s', RetIn H ⟨w.id, m, s'⟩ v ∧ (b.single = false → s' = s))
+    ∧ (∀ p ∈ n.server.boxes, ∀ v, p.2.result = some v → ∃ s, RetIn H ⟨-1, p.1, s⟩ v) := by
+  have h := (IInv.init tbl attached nw nc).exec (GInv.init tbl attached nw nc) trs hwf
+  simp only [List.nil_append] at h
+  exact ⟨fun c hc a v b hm => h.chans c hc a v b hm, h.workers, h.server⟩
+
+/-- … and what an `await` hands to the body is exactly the content of the awaited mailbox,
+    which is ready at that moment: `box.result`, the slot vector in argument order. -/
+theorem C07_L_await_value (w w' : Worker) (t t' : Task) (v : Val)
+    (h : desiredResult w t = .ok (w', t', some v)) (hn : t.wakeNext = false) :
+    ∃ m b, t.desired = some m ∧ boxGet w.boxes m = some b ∧ b.ready = true ∧ v = b.value := by
+  unfold desiredResult at h
+  split at h
+  · simp at h
+  · rename_i m hm
+    split at h
+    · simp at h
+    · rename_i b hb
+      simp only [hn, Bool.false_eq_true, if_false] at h
+      split at h
+      · simp at h
+      · rename_i hr
+        split at h
+        · simp at h
+        · simp only [Except.ok.injEq, Prod.mk.injEq, Option.some.injEq] at h
+          exact ⟨m, b, hm, hb, by simpa using hr, h.2.2.symm⟩
+
+/-- non-vacuity of the integrity theorem: in the leak run the root's mailbox on the worker does
+    not exist any more but a RESULT-free state is reached; in the drift run the server mailbox
+    holds the root's result -/
+example : ((Net.initFlat driftTable false 1 1).exec driftRun).server.boxes.map (fun p => p.2.result.isSome)
+    = [true] := by decide +kernel
 
 
 /-- **Line-level race (finding).** In the source-line model of `_process_await` ∥
